@@ -16,6 +16,10 @@ is applied, children / cables / ports by position:
   ["add_cable", di, k, name]     create_cable + wire joining up to k unconnected pins (leaf -> non-leaf)
   ["create_port", di, w, name]   create_port(name) with w pins (instances get outer pins)
   ["ask_leaf"]                   call is_leaf() on every definition and instance (a read-only query)
+  ["add_def", li, name]          create_definition(name) in library li (e.g. a name of uniquify's own form)
+  ["rename_def", di, name]       definition.name = name
+  ["repoint_all", di, ri]        re-share: every instance of definition di is re-pointed to definition ri
+  ["remove_def", di]             remove an unreferenced definition (its children are un-referenced first)
 
 Ops are applied leniently (an op that does not fit the current netlist is skipped), so a materialised
 history replays on any tree.  `gen_ops` draws ops that keep the netlist well-formed and acyclic.
@@ -74,7 +78,33 @@ def apply_op(nl, op, fresh):
             for k in d.children:
                 k.is_leaf()
         return True
+    if kind == "add_def":
+        nl.libraries[op[1]].create_definition(name=op[2])
+        return True
     d = defs[op[1]]
+    if kind == "rename_def":
+        d.name = op[2]
+        return True
+    if kind == "repoint_all":
+        r = defs[op[2]]
+        if r is d:
+            return False
+        n = 0
+        for P in defs:
+            for k in list(P.children):
+                if k.reference is d and not _reaches(r, P):
+                    k.reference = r
+                    n += 1
+        return n > 0
+    if kind == "remove_def":
+        if d is nl.top_instance.reference or len(d.references) > 0:
+            return False
+        for k in list(d.children):
+            _disconnect_child(k)
+            d.remove_child(k)
+            k.reference = None
+        d.library.remove_definition(d)
+        return True
     if kind == "strip":
         what = op[2]
         if what in ("all", "cables"):
@@ -163,8 +193,13 @@ def apply_ops(nl, ops, tag):
     return done
 
 
-def gen_ops(rng, nl, tag):
-    """a short edit script for the current state of `nl` (explicit ops)"""
+import re as _re
+_UNIQ = _re.compile(r"^(.*)_sdn_unique_(\d+)$", _re.S)
+
+
+def gen_ops(rng, nl, tag, ctr=0):
+    """a short edit script for the current state of `nl` (explicit ops); `ctr`: current value of the
+    transformation's name counter (names of uniquify's own form are drawn around it)"""
     defs = all_defs(nl)
     top = nl.top_instance.reference
     ti = defs.index(top)
@@ -178,6 +213,36 @@ def gen_ops(rng, nl, tag):
 
     if rng.random() < 0.25:
         ops.append(["ask_leaf"])
+    libs = list(nl.libraries)
+    byname = {}
+    for i, d in enumerate(defs):
+        if d.name is not None:
+            byname[(id(d.library), d.name)] = i
+    # undo / collide with what an earlier uniquify produced
+    copies = []
+    for i, d in enumerate(defs):
+        m = _UNIQ.match(d.name or "")
+        if m and (id(d.library), m.group(1)) in byname and i != ti:
+            copies.append((i, byname[(id(d.library), m.group(1))]))
+    if copies and rng.random() < 0.35:
+        for ci, bi in rng.sample(copies, min(len(copies), rng.choice([1, 2, 3]))):
+            ops.append(["repoint_all", ci, bi])          # share the original again
+            if rng.random() < 0.5:
+                ops.append(["remove_def", ci])           # ... and free the copy's name
+    named = [i for i, d in enumerate(defs) if d.name is not None and i != ti]
+    if named and rng.random() < 0.3:
+        bi = rng.choice(named)
+        b = defs[bi]
+        nm = "%s_sdn_unique_%d" % (b.name, max(0, ctr + rng.choice([-1, 0, 0, 1, 2])))
+        li = libs.index(b.library)
+        if rng.random() < 0.7:
+            ops.append(["add_def", li if rng.random() < 0.85 else rng.randrange(len(libs)), nm])
+        else:
+            others = [i for i in named if i != bi]
+            if others:
+                ops.append(["rename_def", rng.choice(others), nm])
+        for _ in range(rng.choice([0, 2, 2, 3])):
+            ops.append(["add_child", rng.choice(parents), bi, names() if rng.random() < 0.85 else None, rng.randint(0, 2)])
     for _ in range(rng.choice([1, 1, 2, 3])):
         r = rng.random()
         if r < 0.35 and nonleaf:
